@@ -320,6 +320,7 @@ pub struct StopPoint {
 	pub recover_n: Vec<usize>,
 }
 
+#[derive(Clone)]
 pub struct ImageInfo {
 	pub faulted: bool,
 	pub committed: usize,
